@@ -31,7 +31,9 @@ class Transport:
         if not self.closed:
             self.closed = True
             self.conn.server_closed = True
-            # Twisted contract: connectionLost follows, nothing is delivered afterwards
+            # Twisted contract: connectionLost follows (in a LATER reactor iteration), nothing is delivered afterwards
+            if self.conn.defer_lost:
+                return
             if not self.conn.lost:
                 self.conn.lost = True
                 self.conn.worker.connectionLost(None)
@@ -57,6 +59,7 @@ class Conn:
         self.client_closed = False
         self.chunker = chunker
         self.delivered_after_close = 0
+        self.defer_lost = False  # True: connectionLost after a server-side close is delivered by deliver_lost()
         CONNS.append(self)
 
     # ---- client -> server
@@ -76,6 +79,12 @@ class Conn:
         if not self.lost:
             self.lost = True
             self.transport.closed = True
+            self.worker.connectionLost(None)
+
+    def deliver_lost(self):
+        '''the reactor gets round to telling the protocol that the connection it closed is gone'''
+        if not self.lost:
+            self.lost = True
             self.worker.connectionLost(None)
 
     def poll(self, seconds=3):
